@@ -43,7 +43,7 @@ func callsAny(fn *ssa.Function, names ...string) bool {
 	for _, b := range fn.Blocks {
 		for _, in := range b.Instrs {
 			if ci, ok := in.(ssa.CallInstruction); ok {
-				if cal := ci.Common().StaticCallee(); cal != nil {
+				if cal := core.Callee(ci.Common()); cal != nil {
 					for _, n := range names {
 						if cal.String() == n || strings.HasSuffix(cal.String(), n) {
 							return true
@@ -67,7 +67,7 @@ func reachesAny(fn *ssa.Function, depth int, names ...string) bool {
 	for _, b := range fn.Blocks {
 		for _, in := range b.Instrs {
 			if ci, ok := in.(ssa.CallInstruction); ok {
-				if cal := ci.Common().StaticCallee(); cal != nil && cal != fn && len(cal.Blocks) > 0 && core.FnPkgPath(cal) == core.FnPkgPath(fn) {
+				if cal := core.Callee(ci.Common()); cal != nil && cal != fn && len(cal.Blocks) > 0 && core.FnPkgPath(cal) == core.FnPkgPath(fn) {
 					if reachesAny(cal, depth-1, names...) {
 						return true
 					}
@@ -222,11 +222,11 @@ func settingStruct(ptrT types.Type) bool {
 	return strings.HasSuffix(s, "options.GlobalConfig") || strings.HasSuffix(s, "resolver.Config")
 }
 
-// settingWriters: methods of Options (other than Load) that store into a documented setting.
+// settingWriters: methods of Options that take the command-line context (candidates for storing into a documented setting).
 func settingWriters(p *core.Program) []*ssa.Function {
 	var out []*ssa.Function
 	for _, fn := range p.Funcs {
-		if core.FnPkgPath(fn) != optionsPkg || fn.Signature.Recv() == nil || fn.Parent() != nil || fn.Name() == "Load" || len(fn.Blocks) == 0 {
+		if core.FnPkgPath(fn) != optionsPkg || fn.Signature.Recv() == nil || fn.Parent() != nil || len(fn.Blocks) == 0 {
 			continue
 		}
 		if !strings.HasSuffix(fn.Signature.Recv().Type().String(), "options.Options") {
@@ -275,6 +275,10 @@ func ruleGuardedOverrides(c *core.Ctx, rule, ruleNoDB string) {
 		return
 	}
 	seenField := map[string]bool{}
+	isWriter := map[*ssa.Function]bool{}
+	for _, w := range ws {
+		isWriter[w] = true
+	}
 	flagTerm := func(m, name string) string {
 		return absint.NewTerm("flag:"+m, absint.Const{V: constant.MakeString(name)}).Key()
 	}
@@ -286,6 +290,17 @@ func ruleGuardedOverrides(c *core.Ctx, rule, ruleNoDB string) {
 		x.Hooks.Call = func(x *absint.Exec, s *absint.State, site ssa.CallInstruction, callee *ssa.Function, fnv absint.Value, args []absint.Value) (absint.Value, bool) {
 			if v, ok := flagStub(x, s, site, callee, args); ok {
 				return v, true
+			}
+			// each writer is judged on its own: a step that is itself a writer (Load calling populateGlobals) is passed
+			// over here, and so is the reading of the configuration file, which gives the settings the values the
+			// flags are then weighed against
+			if callee != nil && callee != fn && isWriter[callee] || callee != nil && strings.Contains(callee.String(), "gcfg.v1.Read") {
+				if site.Common().Signature().Results().Len() == 1 {
+					return x.Fresh(s, "step"), true
+				}
+				if site.Common().Signature().Results().Len() == 0 {
+					return nil, true
+				}
 			}
 			return nil, false
 		}
@@ -664,7 +679,7 @@ func ruleSettingSources(c *core.Ctx, rule string) {
 		}
 		for _, b := range fn.Blocks {
 			for _, in := range b.Instrs {
-				if call, ok := in.(*ssa.Call); ok && call.Call.StaticCallee() != nil && call.Call.StaticCallee().String() == "os.Open" {
+				if call, ok := in.(*ssa.Call); ok && core.Callee(&call.Call) != nil && core.Callee(&call.Call).String() == "os.Open" {
 					check(core.FuncName(fn), "os.Open", c.P.Pos(call.Pos()), call.Call.Args[0], []string{"flag:String(database)", "flag:String(logfile)", "ext:config-file"})
 				}
 			}
@@ -707,7 +722,7 @@ func ruleSettingSources(c *core.Ctx, rule string) {
 func init() {
 	register(&Property{
 		ID:    "C16",
-		Rules: []string{"C16-R1", "C16-R2", "C16-R3", "C16-R4", "C16-R5", "C16-R6", "C16-R7", "C16-R8", "C16-R9"},
+		Rules: []string{"C16-R1", "C16-R2", "C16-R3", "C16-R4", "C16-R5", "C16-R6", "C16-R7", "C16-R8", "C16-R9", "C16-R10", "C05-R3"},
 		Explain: "Decides the precedence machinery of settings: C16-R1 the configuration-file decision table of Options.Load over stat ∈ {ok, not-exist, other error} x IsSet(config) x useConfigFile (exists ⇒ read; named but missing ⇒ error; default missing ⇒ skipped; stat error ⇒ error); " +
 			"C16-R2 each of the five settings is written from its own flag only when the flag/environment is set or the value is still empty, a set flag always wins, and --today is parsed with the effective date format; " +
 			"C16-R3 flag declarations, README option listing, defaults and documented configuration keys agree, and every flag the code reads is declared; C16-R4 --no-database leaves no book to open; " +
@@ -715,10 +730,12 @@ func init() {
 			"C16-R6 the configuration file is read into the live options structure (or a complete copy that is completely copied back), so defaults survive for every key the file does not set; " +
 			"C16-R7 the resolver's entry points hand the configured depth limit to the walk untransformed; " +
 			"C16-R8 every command configuration literal sets each options section it has a field for (none runs on a zero-valued section); " +
-			"C16-R9 a setting's flag that is declared on a command as well as on the application is read through the context lineage, so the global flag and its environment variable are not shadowed.",
+			"C16-R9 a setting's flag that is declared on a command as well as on the application is read through the context lineage, so the global flag and its environment variable are not shadowed. C16-R10 the reader gcfg parses is the opened file, a buffered reader over it or its complete contents; Load itself is judged as a writer for the stores it makes directly. C05-R3 (shared) nothing reads the wall clock outside the default of --today.",
 		NotDecided:  "urfave/cli's own flag-over-environment precedence and gcfg's parsing (trusted)",
 		Assumptions: []string{"urfave/cli: IsSet is true for a flag given on the command line or through its environment variable; String/Int return the flag's default otherwise", "gcfg.ReadInto fills only the gcfg-tagged sections"},
 		Run: func(c *core.Ctx) {
+			ruleC05R3(c, "C05-R3", allowedClock) // the current date is read from the clock nowhere but at its default
+			ruleConfigWholeFile(c, "C16-R10")
 			ruleConfigFileTable(c, "C16-R1")
 			ruleGuardedOverrides(c, "C16-R2", "C16-R4")
 			ruleSettingTables(c, "C16-R3")
@@ -736,6 +753,46 @@ func init() {
 			})
 		},
 	})
+}
+
+// soleStored: the single value stored into the cell a, which is otherwise only read (also by the closures that
+// capture it); nil when the cell is written more than once or its address goes elsewhere.
+func soleStored(a *ssa.Alloc) ssa.Value {
+	var val ssa.Value
+	var readOnly func(refs []ssa.Instruction, self ssa.Value) bool
+	readOnly = func(refs []ssa.Instruction, self ssa.Value) bool {
+		for _, r := range refs {
+			switch t := r.(type) {
+			case *ssa.UnOp:
+				if t.Op != token.MUL {
+					return false
+				}
+			case *ssa.DebugRef:
+			case *ssa.Store:
+				if t.Addr != self || val != nil {
+					return false
+				}
+				val = t.Val
+			case *ssa.MakeClosure:
+				fn := t.Fn.(*ssa.Function)
+				for i, b := range t.Bindings {
+					if b == self && i < len(fn.FreeVars) {
+						fv := fn.FreeVars[i]
+						if fv.Referrers() == nil || !readOnly(*fv.Referrers(), fv) {
+							return false
+						}
+					}
+				}
+			default:
+				return false
+			}
+		}
+		return true
+	}
+	if a.Referrers() == nil || !readOnly(*a.Referrers(), a) {
+		return nil
+	}
+	return val
 }
 
 // ruleConfigTarget is C16-R6 (and C04-R4): the configuration file is read into
@@ -760,6 +817,15 @@ func ruleConfigTarget(c *core.Ctx, rule string) {
 				v = x.X
 			case *ssa.ChangeType:
 				v = x.X
+			case *ssa.UnOp:
+				// a variable captured by closures lives in a cell: the one value ever stored there
+				if a, ok := x.X.(*ssa.Alloc); ok && x.Op == token.MUL {
+					if sv := soleStored(a); sv != nil {
+						v = sv
+						continue
+					}
+				}
+				return v
 			default:
 				return v
 			}
@@ -787,7 +853,7 @@ func ruleConfigTarget(c *core.Ctx, rule string) {
 				for _, g := range c.P.Funcs {
 					for _, b := range g.Blocks {
 						for _, in := range b.Instrs {
-							if ci, ok := in.(ssa.CallInstruction); ok && ci.Common().StaticCallee() == fn && idx < len(ci.Common().Args) {
+							if ci, ok := in.(ssa.CallInstruction); ok && core.Callee(ci.Common()) == fn && idx < len(ci.Common().Args) {
 								callers++
 								check(g, ci.Common().Args[idx], c.P.Pos(in.Pos()), depth+1)
 							}
@@ -893,7 +959,7 @@ func ruleConfigTarget(c *core.Ctx, rule string) {
 		for _, b := range fn.Blocks {
 			for _, in := range b.Instrs {
 				ci, ok := in.(ssa.CallInstruction)
-				if !ok || !isRead(ci.Common().StaticCallee()) || len(ci.Common().Args) == 0 {
+				if !ok || !isRead(core.Callee(ci.Common())) || len(ci.Common().Args) == 0 {
 					continue
 				}
 				n++
@@ -956,6 +1022,7 @@ func ruleConfigLiterals(c *core.Ctx, rule string, want func(t types.Type) bool) 
 				}
 				// is this a literal being filled (some field stored) rather than a zero value that is overwritten as a whole?
 				stored := map[int]bool{}
+				storedVal := map[int]ssa.Value{}
 				whole := false
 				for _, r := range *al.Referrers() {
 					switch r := r.(type) {
@@ -963,6 +1030,7 @@ func ruleConfigLiterals(c *core.Ctx, rule string, want func(t types.Type) bool) 
 						for _, rr := range *r.Referrers() {
 							if s, ok := rr.(*ssa.Store); ok && s.Addr == ssa.Value(r) {
 								stored[r.Field] = true
+								storedVal[r.Field] = s.Val
 							}
 						}
 					case *ssa.Store:
@@ -984,6 +1052,16 @@ func ruleConfigLiterals(c *core.Ctx, rule string, want func(t types.Type) bool) 
 					}
 				}
 				disc := named.Obj().Name() + " literal"
+				// a section that is set must be the loaded one (or a copy of it that is adjusted), not a fresh default
+				for _, i := range need {
+					ft := st.Field(i).Type().String()
+					if !stored[i] || !(strings.HasSuffix(ft, "parser.Config") || strings.HasSuffix(ft, "resolver.Config") || strings.HasSuffix(ft, "reporter.Config")) {
+						continue
+					}
+					if v := storedVal[i]; v != nil && seesOptions(fn, optT) && !fromOptionsSection(v, optT, 0) {
+						c.Violate(rule, fname, disc+" "+st.Field(i).Name(), pos, fmt.Sprintf("the %s of the %s is %s, not the section the options were loaded into: flags, environment and configuration file have no effect on it for this command", st.Field(i).Name(), named.Obj().Name(), v.String()), nil)
+					}
+				}
 				if len(missing) == 0 {
 					c.Discharge(rule, fname, disc, pos, fmt.Sprintf("all %d options sections the structure has a field for are set", len(need)))
 				} else {
@@ -995,6 +1073,57 @@ func ruleConfigLiterals(c *core.Ctx, rule string, want func(t types.Type) bool) 
 	if n == 0 {
 		c.Undecide(rule, "commands", "universe", "-", "no command builds a configuration structure from the options: the rule found nothing to check", nil)
 	}
+}
+
+// seesOptions: fn or a function it is nested in has the loaded options as a parameter (the command actions).
+func seesOptions(fn *ssa.Function, optT types.Type) bool {
+	for f := fn; f != nil; f = f.Parent() {
+		for _, p := range f.Params {
+			if pt, ok := p.Type().Underlying().(*types.Pointer); ok && types.Identical(pt.Elem(), optT) {
+				return true
+			}
+		}
+	}
+	return false
+}
+
+// fromOptionsSection: v is read from a field of the loaded options, directly or through a local copy that started
+// from it.
+func fromOptionsSection(v ssa.Value, optT types.Type, depth int) bool {
+	if depth > 5 {
+		return false
+	}
+	switch t := v.(type) {
+	case *ssa.Phi:
+		for _, e := range t.Edges {
+			if !fromOptionsSection(e, optT, depth+1) {
+				return false
+			}
+		}
+		return len(t.Edges) > 0
+	case *ssa.UnOp:
+		if t.Op != token.MUL {
+			return false
+		}
+		switch a := t.X.(type) {
+		case *ssa.FieldAddr:
+			if pt, ok := a.X.Type().Underlying().(*types.Pointer); ok && types.Identical(pt.Elem(), optT) {
+				return true
+			}
+		case *ssa.Alloc:
+			if a.Referrers() == nil {
+				return false
+			}
+			for _, r := range *a.Referrers() {
+				if st, ok := r.(*ssa.Store); ok && st.Addr == ssa.Value(a) && fromOptionsSection(st.Val, optT, depth+1) {
+					return true
+				}
+			}
+		}
+	case *ssa.Field:
+		return types.Identical(t.X.Type(), optT) || fromOptionsSection(t.X, optT, depth+1)
+	}
+	return false
 }
 
 // ruleReporterDateFormat is C14-R6: when Options.Load succeeds, the date layout
